@@ -349,6 +349,34 @@ func %s(a int, k byte) int {
 	return &Prog{ID: fmt.Sprintf("rec:%d", depth), Src: src, Entry: name, Params: []Param{{"a", "int"}, {"k", "byte"}}, Results: []string{"int"}, Family: fmt.Sprintf("C09/recursion%d", depth)}
 }
 
+// variadicLifetimeProgs: the slice a variadic call packs is a fresh one per call (it may be kept, returned or read
+// after a nested call of the same function), and a spread slice is passed through unchanged (callee writes are seen
+// by the caller).
+func variadicLifetimeProgs(base int) []*Prog {
+	mk := func(i int, name, decls, body string, params []Param) *Prog {
+		fn := fmt.Sprintf("f%d", base+i)
+		var ps []string
+		for _, p := range params {
+			ps = append(ps, p.Name+" "+p.Type)
+		}
+		src := "package main\n\nimport \"fmt\"\n\ntype T struct {\n\tv int\n}\n\n" + decls + fmt.Sprintf("func %s(%s) int {\n%s}\n", fn, strings.Join(ps, ", "), body)
+		return &Prog{ID: "variadic-lifetime:" + name, Src: src, Entry: fn, Params: params, Results: []string{"int"}, Family: "C09/variadic-lifetime/" + name, Tags: map[string]string{"form": "variadic-lifetime"}}
+	}
+	abc := []Param{{"a", "int"}, {"b", "int"}, {"c", "int"}}
+	return []*Prog{
+		mk(0, "kept", "func keep(xs ...int) []int {\n\treturn xs\n}\n\n",
+			"\tp := keep(a, b, c)\n\tq := keep(7, 8)\n\tr := keep(c)\n\tfmt.Println(p, q, r, len(p), len(q))\n\tp[0] = 99\n\tfmt.Println(p, q, r)\n\treturn p[1] + q[0] + r[0]\n", abc),
+		mk(1, "read-after-nested-call", "func rec(d int, xs ...int) int {\n\tif d > 0 {\n\t\trec(d-1, xs[0]+1, 5)\n\t}\n\ts := 0\n\tfor _, x := range xs {\n\t\ts = s*3 + x\n\t}\n\tfmt.Println(d, xs, s)\n\treturn s\n}\n\n",
+			"\treturn rec(2, a, b, c) + rec(1, c)\n", abc),
+		mk(2, "method-value", "func (t *T) keep(xs ...int) []int {\n\txs[0] += t.v\n\treturn xs\n}\n\n",
+			"\tt := &T{v: a}\n\tk := t.keep\n\tp := k(b, c)\n\tq := k(1, 2, 3)\n\tr := t.keep(c, b)\n\tfmt.Println(p, q, r)\n\treturn p[0] + q[2] + r[1]\n", abc),
+		mk(3, "spread-passes-through", "func bump(xs ...int) int {\n\tif len(xs) > 0 {\n\t\txs[0] += 100\n\t}\n\treturn len(xs)\n}\n\n",
+			"\ts := []int{a, b, c}\n\tn := bump(s...)\n\tm := bump(a, b)\n\tvar e []int\n\tz := bump(e...)\n\tfmt.Println(s, n, m, z, a, b)\n\treturn s[0]\n", abc),
+		mk(4, "stored-in-struct", "type H struct {\n\tkeep []int\n}\n\nfunc (h *H) take(xs ...int) {\n\th.keep = xs\n}\n\n",
+			"\th1 := &H{}\n\th2 := &H{}\n\th1.take(a, b)\n\th2.take(c, 4)\n\th1.keep[1] = 50\n\tfmt.Println(h1.keep, h2.keep)\n\treturn h1.keep[0] + h2.keep[0]\n", abc),
+	}
+}
+
 func checkC09(tier string, seed int64) int {
 	c := newCtx("C09", tier, seed, "translation_validation", nil)
 	defer c.Close()
@@ -370,12 +398,13 @@ func checkC09(tier string, seed int64) int {
 	for i, d := range depths {
 		progs = append(progs, recursionProg(n+i, d))
 	}
+	progs = append(progs, variadicLifetimeProgs(n+len(depths))...)
 	agg, st := NewAgg(), &eqStats{}
 	c.runEquiv(progs, "z3", agg, st)
 	agg.Into(c, "")
 	c.Cov("call_forms", forms)
 	c.Cov("recursion_depths", depths)
-	c.Cov("rule", "seeded call programs: callee with 0–5 parameters (some of them blank `_`) over {int, byte, int8, uint32, float64, bool, string, []int, *T, func(int) int}, optional variadic tail (int/byte/string/float64/int8/uint32; none, 1–3 extras mixing typed values and untyped constants in either order, or spread s...); parameters and variadic elements are printed with powers / quotients that reveal their static type, 0–3 results; call forms statement, multi-assign, return f() wrapper, inside an expression, method, method value taken before the receiver variable is reassigned, function variable, struct field of func type, func parameter, func literal; arguments are distinct symbolic inputs, untyped constants or nil; plus recursion to the listed concrete depths with symbolic accumulator")
+	c.Cov("rule", "seeded call programs: callee with 0–5 parameters (some of them blank `_`) over {int, byte, int8, uint32, float64, bool, string, []int, *T, func(int) int}, optional variadic tail (int/byte/string/float64/int8/uint32; none, 1–3 extras mixing typed values and untyped constants in either order, or spread s...); parameters and variadic elements are printed with powers / quotients that reveal their static type, 0–3 results; call forms statement, multi-assign, return f() wrapper, inside an expression, method, method value taken before the receiver variable is reassigned, function variable, struct field of func type, func parameter, func literal; arguments are distinct symbolic inputs, untyped constants or nil; plus recursion to the listed concrete depths with symbolic accumulator; plus variadic-lifetime programs (packed slices kept / returned / stored / read after a nested call of the same function or method value; spread slices passed through and written by the callee)")
 	c.Cov("paths_compared", st.compared)
 	return c.Finish(false)
 }
